@@ -34,6 +34,12 @@ type c09op struct {
 
 // runHistory executes the per-goroutine op lists concurrently on a fresh cache.
 func c09runHistory(limit int, unit bool, lists [][]c09op, cbYield bool) (ops []c09op, cb [][3]int, pan string) {
+	return c09runHistoryF(limit, unit, lists, cbYield, 0, 0)
+}
+
+// c09runHistoryF: as c09runHistory, on a cache pre-filled sequentially with keys
+// 1001..1000+fill (values {key, fsz}) before the goroutines start.
+func c09runHistoryF(limit int, unit bool, lists [][]c09op, cbYield bool, fill, fsz int) (ops []c09op, cb [][3]int, pan string) {
 	var seq atomic.Int64
 	var cbmu sync.Mutex
 	cfg := cache.LRU[int, cv]().OnEvict(func(k int, v cv) {
@@ -48,6 +54,9 @@ func c09runHistory(limit int, unit bool, lists [][]c09op, cbYield bool) (ops []c
 		cfg = cfg.WithSize(func(v cv) int64 { return int64(v.Size) })
 	}
 	c := cache.New(int64(limit), cfg)
+	for k := 1001; k <= 1000+fill; k++ {
+		c.Put(k, cv{k, fsz})
+	}
 	var wg sync.WaitGroup
 	var panmu sync.Mutex
 	start := make(chan struct{})
@@ -152,7 +161,44 @@ func runC09(c *Ctx) {
 		limit, unit, lists := c09gen(rng, c.Thorough())
 		ops, cb, pan := c09runHistory(limit, unit, lists, rng.Intn(2) == 0)
 		h := c.NewHist("concurrent")
-		h.Emit(Ev{"op": "new", "limit": limit, "unit": unit, "procs": procs[i%len(procs)], "gi": i, "ops": ops, "cb": cb, "panic": pan})
+		h.Emit(Ev{"op": "new", "limit": limit, "unit": unit, "procs": procs[i%len(procs)], "gi": i, "ops": ops, "cb": cb, "panic": pan, "fill": 0, "fsz": 0})
+	}
+	// large caches: Clear of thousands of entries against observers; one Put that
+	// evicts hundreds of entries against another evicting Put
+	for i := 0; i < c.Pick(24, 400); i++ {
+		rng := c.Rng("c09-big", i)
+		runtime.GOMAXPROCS(procs[i%len(procs)])
+		var lists [][]c09op
+		var limit, fill, fsz int
+		unit := false
+		mkobs := func(g, n int) []c09op {
+			var l []c09op
+			for j := 0; j < n; j++ {
+				o := c09op{G: g, Op: []string{"len", "size", "has"}[rng.Intn(3)], spinPre: []int{0, 10, 100, 1000, 10000}[rng.Intn(5)], yieldPre: rng.Intn(2) == 0}
+				if o.Op == "has" {
+					o.K = 1001 + rng.Intn(50)
+				}
+				l = append(l, o)
+			}
+			return l
+		}
+		if i%2 == 0 {
+			fill, fsz, unit = 1500+rng.Intn(4000), 1, true
+			limit = fill + 10
+			lists = [][]c09op{{{G: 1, Op: "clear"}}, mkobs(2, 5), mkobs(3, 4)}
+		} else {
+			fill, fsz = 120+rng.Intn(200), 1
+			limit = fill
+			big := fill*3/4 + rng.Intn(fill/8)
+			lists = [][]c09op{
+				{{G: 1, Op: "put", K: 1, V: [2]int{1, big}}},
+				{{G: 2, Op: "put", K: 2, V: [2]int{2, big}, spinPre: []int{0, 100, 10000}[rng.Intn(3)]}},
+				mkobs(3, 3),
+			}
+		}
+		ops, cb, pan := c09runHistoryF(limit, unit, lists, true, fill, fsz)
+		h := c.NewHist("concurrent-big")
+		h.Emit(Ev{"op": "new", "limit": limit, "unit": unit, "procs": procs[i%len(procs)], "gi": i, "ops": ops, "cb": cb, "panic": pan, "fill": fill, "fsz": fsz})
 	}
 	runtime.GOMAXPROCS(runtime.NumCPU())
 }
@@ -183,7 +229,11 @@ func replayC09(c *Ctx, h *Hist, evs []Op) {
 	}
 	runtime.GOMAXPROCS(geti(e, "procs"))
 	rng := rand.New(rand.NewSource(c.Seed))
-	for rep := 0; rep < 300; rep++ {
+	nrep := 300
+	if geti(e, "fill") > 0 {
+		nrep = 40
+	}
+	for rep := 0; rep < nrep; rep++ {
 		var lists [][]c09op
 		for g := 1; g <= maxG; g++ {
 			l := append([]c09op(nil), byG[g]...)
@@ -193,8 +243,8 @@ func replayC09(c *Ctx, h *Hist, evs []Op) {
 			}
 			lists = append(lists, l)
 		}
-		ops, cb, pan := c09runHistory(limit, unit, lists, rep%2 == 0)
+		ops, cb, pan := c09runHistoryF(limit, unit, lists, rep%2 == 0, geti(e, "fill"), geti(e, "fsz"))
 		hh := c.NewHist("rerun")
-		hh.Emit(Ev{"op": "new", "limit": limit, "unit": unit, "procs": geti(e, "procs"), "gi": rep, "ops": ops, "cb": cb, "panic": pan})
+		hh.Emit(Ev{"op": "new", "limit": limit, "unit": unit, "procs": geti(e, "procs"), "gi": rep, "ops": ops, "cb": cb, "panic": pan, "fill": geti(e, "fill"), "fsz": geti(e, "fsz")})
 	}
 }
